@@ -28,9 +28,13 @@ impl Default for Handles {
 }
 
 impl Handles {
+    /// Drop every handle; a destructor that panics (that is some operation's finding, reported
+    /// where it is executed explicitly) must not take the harness down with it
     pub fn clear(&mut self) {
         for s in self.slots.iter_mut() {
-            *s = None;
+            if let Some(h) = s.take() {
+                let _ = std::panic::catch_unwind(std::panic::AssertUnwindSafe(move || drop(h)));
+            }
         }
     }
 }
@@ -75,6 +79,44 @@ pub fn view(e: &VfsEntry) -> EntryView {
         symlink_dir: e.is_symlink_dir(),
         symlink_file: e.is_symlink_file(),
         file_name: e.file_name().map(|x| x.to_string_lossy().into_owned()),
+    }
+}
+
+thread_local! {
+    /// set when the accessors of a VfsEntry disagree with those of the value it wraps (C13)
+    pub static ENTRY_MISMATCH: std::cell::RefCell<Option<String>> = const { std::cell::RefCell::new(None) };
+}
+
+/// The same accessor set read from the wrapped backend value instead of through the enum
+fn view_inner(e: &VfsEntry) -> EntryView {
+    fn of<E: Entry>(x: &E) -> EntryView {
+        EntryView {
+            path: ps(x.path()),
+            alt: ps(x.alt()),
+            rel: ps(x.rel()),
+            dir: x.is_dir(),
+            file: x.is_file(),
+            link: x.is_symlink(),
+            mode: x.mode(),
+            following: x.following(),
+            exec: x.is_exec(),
+            readonly: x.is_readonly(),
+            symlink_dir: x.is_symlink_dir(),
+            symlink_file: x.is_symlink_file(),
+            file_name: x.file_name().map(|n| n.to_string_lossy().into_owned()),
+        }
+    }
+    match e {
+        VfsEntry::Memfs(x) => of(x),
+        VfsEntry::Stdfs(x) => of(x),
+    }
+}
+
+/// follow() called on the wrapped backend value
+fn follow_inner(e: VfsEntry, yes: bool) -> VfsEntry {
+    match e {
+        VfsEntry::Memfs(x) => x.follow(yes),
+        VfsEntry::Stdfs(x) => x.follow(yes),
     }
 }
 
@@ -342,12 +384,33 @@ fn exec_inner<V: VirtualFileSystem>(v: &V, hs: &mut Handles, op: &Op) -> Outcome
         Op::Entries { p, o } => run_entries(v, p, o),
         Op::Entry { p } => match v.entry(p) {
             Ok(e) => {
+                // every step once through the enum and once on the wrapped value
+                {
+                    let mut w = e.clone();
+                    let mut i = e.clone();
+                    let mut diffs = vec![];
+                    for (k, yes) in [(0, None), (1, Some(true)), (2, Some(false)), (3, Some(true))] {
+                        if let Some(y) = yes {
+                            w = w.follow(y);
+                            i = follow_inner(i, y);
+                        }
+                        let (vw, vi) = (view(&w), view_inner(&i));
+                        if vw != vi || view_inner(&w) != vw {
+                            diffs.push(format!("step {}: enum {:?} vs wrapped value {:?}", k, vw, vi));
+                        }
+                    }
+                    if !diffs.is_empty() {
+                        ENTRY_MISMATCH.with(|m| *m.borrow_mut() = Some(diffs.join("; ")));
+                    }
+                }
                 let v0 = view(&e);
                 let e1 = e.follow(true);
                 let v1 = view(&e1);
-                let e2 = e1.follow(true);
+                let e2 = e1.follow(false);
                 let v2 = view(&e2);
-                Outcome::Ok(Val::EntryF(v0, v1, v2))
+                let e3 = e2.follow(true);
+                let v3 = view(&e3);
+                Outcome::Ok(Val::EntryF(v0, v1, v2, v3))
             },
             Err(e) => Outcome::Err(err_kind(&e)),
         },
